@@ -8,6 +8,7 @@ import (
 	"errors"
 	"fmt"
 	"io"
+	"regexp"
 	"runtime"
 	"sort"
 	"strings"
@@ -821,6 +822,11 @@ func Execute(spec *Spec) *Trace {
 						tr.Timeout = "eager run did not return within the watchdog"
 						if atomic.LoadInt32(&r.overflow) == 1 {
 							tr.Timeout = "run stopped by the controller: a task was entered more often than retries+1"
+						} else if atomic.LoadInt32(&r.live) == 0 {
+							if blocked, desc := allDagGoroutinesBlocked(); blocked && atomic.LoadInt32(&r.live) == 0 {
+								tr.Timeout = ""
+								tr.Stalled = "no task function is executing and every goroutine of package dag is blocked for good: " + desc
+							}
 						}
 					}
 					abandon()
@@ -975,6 +981,15 @@ func Execute(spec *Spec) *Trace {
 			}
 			if time.Now().After(deadline) {
 				tr.Timeout = fmt.Sprintf("no quiescent point and no return within the watchdog (last snapshot pending=%d inprogress=%d skip=%d done=%d)", p, ip, sk, dn)
+				r.mu.Lock()
+				np := len(r.parked)
+				r.mu.Unlock()
+				if np == 0 && atomic.LoadInt32(&r.live) == 0 {
+					if blocked, desc := allDagGoroutinesBlocked(); blocked && atomic.LoadInt32(&r.live) == 0 {
+						tr.Timeout = ""
+						tr.Stalled = "no task function is executing, nothing is parked and every goroutine of package dag is blocked for good: " + desc
+					}
+				}
 				abandon()
 				break
 			}
@@ -1087,11 +1102,61 @@ func (r *runner) finalExitsLocked() int {
 
 var _ = bytes.NewBuffer
 
-// TaskName - ID of task i. With Colon the first four IDs are chosen so that two different edges give the same text when
-// written as "<id>:<dependency id>": t0 -> t1:t99 and t0:t1 -> t99.
+var goroutineHeader = regexp.MustCompile(`^goroutine (\d+) \[([^\],]+)`)
+
+// allDagGoroutinesBlocked - goroutine dump taken when a run neither returned nor reached a quiescent point: true when at least
+// one goroutine is inside package dag and every such goroutine is blocked on a channel operation, a mutex or an empty select
+// (none running, runnable, sleeping or in a syscall), in two dumps taken 300 ms apart with the same goroutines in the same
+// states. With no task function executing and nothing parked by the controller nothing can wake them: the context is the
+// harness's own and is not cancelled any more, timers belong to sleeping goroutines only.
+func allDagGoroutinesBlocked() (bool, string) {
+	snap := func() (map[string]string, bool) {
+		buf := make([]byte, 4<<20)
+		buf = buf[:runtime.Stack(buf, true)]
+		states := map[string]string{}
+		allBlocked := true
+		for _, g := range strings.Split(string(buf), "\n\n") {
+			if !strings.Contains(g, "go-getoptions/dag.") {
+				continue
+			}
+			m := goroutineHeader.FindStringSubmatch(g)
+			if m == nil {
+				continue
+			}
+			states[m[1]] = m[2]
+			switch m[2] {
+			case "chan send", "chan receive", "select (no cases)", "semacquire", "sync.Mutex.Lock", "sync.RWMutex.Lock", "sync.RWMutex.RLock", "sync.Cond.Wait", "chan send (nil chan)", "chan receive (nil chan)":
+			default:
+				allBlocked = false
+			}
+		}
+		return states, allBlocked && len(states) > 0
+	}
+	a, okA := snap()
+	if !okA {
+		return false, ""
+	}
+	time.Sleep(300 * time.Millisecond)
+	b, okB := snap()
+	if !okB || len(a) != len(b) {
+		return false, ""
+	}
+	var desc []string
+	for id, st := range a {
+		if b[id] != st {
+			return false, ""
+		}
+		desc = append(desc, "goroutine "+id+" ["+st+"]")
+	}
+	sort.Strings(desc)
+	return true, strings.Join(desc, ", ")
+}
+
+// TaskName - ID of task i. With Colon the first four IDs are chosen so that two different edges (a task depends on tasks with
+// a smaller index) give the same text when written as "<id>:<dependency id>": ta -> tb:tc (1 -> 0) and ta:tb -> tc (3 -> 2).
 func TaskName(spec *Spec, i int) string {
 	if spec.Colon && i < 4 {
-		return []string{"t0", "t1:t99", "t0:t1", "t99"}[i] + TaskSuffix(spec)
+		return []string{"tb:tc", "ta", "tc", "ta:tb"}[i] + TaskSuffix(spec)
 	}
 	return fmt.Sprintf("t%d", i) + TaskSuffix(spec)
 }
